@@ -74,9 +74,10 @@ def upper_diff(L, k, idx=0):
   """q = next_prime(p + D), D = 2^(L-k) (k in 100,128,160,256,2,3), p an L-bit prime."""
   D = 1 << (L - k)
   while True:
-    # an L-bit prime in [2^(L-1), 5/8 * 2^L) so that p + D still has L bits
-    v = nt.drbg_int('updiff-%d-%d-%d' % (L, k, idx), L) | (1 << (L - 1)) | 1
-    v &= ~(3 << (L - 3))
+    # a FIPS-style L-bit prime (>= sqrt(2) * 2^(L-1)) small enough that p + D still has L
+    # bits: top bits 10111, i.e. p in [0.71875, 0.75) * 2^L
+    v = nt.drbg_int('updiff-%d-%d-%d' % (L, k, idx), L) | 1
+    v = (v & ((1 << (L - 5)) - 1)) | (0b10111 << (L - 5))
     p = nt.next_prime(v)
     q = nt.next_prime(p + D)
     if q.bit_length() == L and p.bit_length() == L:
